@@ -44,7 +44,7 @@ impl State {
         let sub = std::env::var("VERIF_FUZZ_SUB").expect("VERIF_FUZZ_SUB");
         let prop = props::get(&id).expect("unknown property");
         let sub_idx = prop.subchecks.iter().position(|s| s.name == sub).expect("unknown sub-check");
-        let dir = std::env::var("VERIF_FUZZ_DIR").map(PathBuf::from).unwrap_or_else(|_| PathBuf::from(VERIF_DIR).join("work").join("fuzz").join(&id).join(&sub));
+        let dir = std::env::var("VERIF_FUZZ_DIR").map(PathBuf::from).unwrap_or_else(|_| PathBuf::from(verif_dir()).join("work").join("fuzz").join(&id).join(&sub));
         let _ = std::fs::create_dir_all(dir.join("found"));
         install_panic_hook();
         State {
